@@ -53,6 +53,10 @@ var c14Ops = []string{
 	"rest.get no/such", "web.message no/such", "client.GetMessageSource no/such",
 	// an id that ends in the id of a stored message behind an escaped slash names no message
 	"rest.get x%2F#1", "rest.seen x%2F#1", "rest.delete x%2F#1", "client.DeleteMessage x%2F#1", "web.source x%2F#1",
+	// a message leaves the store behind the HTTP layer's back, the way the retention scanner, a POP3
+	// session or a limit removes it (straight at the store): every later answer shows the store as
+	// it is now
+	"bypass.remove #1", "bypass.purge",
 	// a message whose received date lies before every earlier one's (straight into the store):
 	// listings and 'latest' follow arrival order, dates are metadata.  (Must stay the last op.)
 	"deliver-backdated",
@@ -464,6 +468,20 @@ func c14Exec(c *fw.Ctx, cas c14Case, from int) (key string, extend, nontrivial b
 			} else if m != nil && r.Status != 200 {
 				fail(vk(kind+fmt.Sprintf("|status-%d", r.Status)), fmt.Sprintf("DELETE of an existing message answered %d", r.Status))
 			}
+		case "bypass.remove":
+			id, m, _ := resolve(ref)
+			err := s.StoreH.Store.RemoveMessage(nm.Mailbox, id)
+			log = append(log, fmt.Sprintf("   [store.RemoveMessage(%q,%q) -> %v]", nm.Mailbox, id, err))
+			if m != nil && err == nil {
+				mo.Remove(nm.Mailbox, m)
+				nontrivial = true
+			}
+		case "bypass.purge":
+			err := s.StoreH.Store.PurgeMessages(nm.Mailbox)
+			log = append(log, fmt.Sprintf("   [store.PurgeMessages(%q) -> %v]", nm.Mailbox, err))
+			if err == nil && len(mo.Purge(nm.Mailbox)) > 0 {
+				nontrivial = true
+			}
 		case "rest.purge":
 			r := do("DELETE", api("rest"), nil)
 			if r.Status == 200 {
@@ -642,6 +660,19 @@ func c14Run(c *fw.Ctx) {
 			c14Directed(c, be, 0, []int{0, bd})
 			c14Directed(c, be, 0, []int{bd, 0})
 			c14Directed(c, be, 0, []int{0, bd, 0})
+			// listed, removed behind the HTTP layer's back, then every operation (and the same with
+			// two messages, and through the Go client's listing)
+			idx := func(op string) int {
+				for i, o := range c14Ops {
+					if o == op {
+						return i
+					}
+				}
+				panic("VERIF-INFRA no op " + op)
+			}
+			c14Directed(c, be, 0, []int{0, idx("rest.list"), idx("bypass.remove #1")})
+			c14Directed(c, be, 0, []int{0, 0, idx("client.ListMailbox"), idx("bypass.remove #1")})
+			c14Directed(c, be, 0, []int{0, 0, idx("rest.list"), idx("bypass.purge")})
 		}
 	}
 	// the Go client configured with a base URL that ends in a slash (with and without base path)
